@@ -167,7 +167,7 @@ def check_c04(tier, seed, wd):
     blocks = ['', '-B4', '-B5', '-B6', '-B7', '-B32', '-B65536', '-B70000', '-B1048577']
     deps = ['', '-BD', '-BI']
     dictfile = os.path.join(wd, 'dict.bin'); dictdata = gen_content(rng, 70000, 'lz'); write_file(dictfile, dictdata)
-    ncases = 268 if ctx.thorough else 52
+    ncases = 270 if ctx.thorough else 54
     for ci in range(ncases):
         legacy = rng.random() < 0.12
         big = (ci % 4 == 0)
@@ -186,9 +186,21 @@ def check_c04(tier, seed, wd):
         # small default-format archives at a fast level with LINKED blocks (-BD): compared byte for byte with Model/CliLinked.lean (both builds)
         pinned_linked = 17 <= ci <= 24
         if pinned_linked: legacy, n, lvl = False, [1, 65535, 65536, 65537, 131072, 200000, 262145, 290000][ci - 17], rng.choice(['-1', '--fast=3', '--fast=1', '-1'])
+        # pinned: a dictionary AND linked blocks on an input of several multi-threaded jobs, the content quoting the dictionary all along: from the second job on
+        # the history a block may refer to is the previous 64 KB of data, not the dictionary
+        pinned_dictlinked = ci in (25, 26)
+        if pinned_dictlinked: legacy, n, lvl = False, 9 * MB + 123, rng.choice(['-1', '-3'])
         content = gen_content(rng, n, kind)
+        if pinned_dictlinked:
+            ba = bytearray(content); pos = 0
+            while pos + 600 < len(ba):
+                l = rng.randint(40, 400); frm = rng.randint(0, len(dictdata) - l); ba[pos:pos + l] = dictdata[frm:frm + l]; pos += l + rng.randint(100, 3000)
+            content = bytes(ba)
         opts = [lvl]; want_bsid = 0; want_indep = 2; want_cs = 2; want_cc = 2; use_dict = False
         if legacy: opts = ['-l'] + ([lvl] if lvl in ('-1', '-9', '-3', '--fast=3') else [])
+        elif pinned_dictlinked:
+            opts += ['-BD', '-D', dictfile]; want_indep = 0; use_dict = True
+            if ci == 26: opts.append('--no-frame-crc'); want_cc = 0
         elif pinned_linked:
             b = rng.choice(['-B4', '-B4', '-B5', '', '-B4'])
             if b: opts.append(b); want_bsid = int(b[2])
@@ -220,6 +232,7 @@ def check_c04(tier, seed, wd):
         pipe = rng.random() < 0.3
         comp_mt = rng.random() < 0.5
         if pinned_frame or pinned_linked: comp_mt = (ci % 2 == 0)
+        if pinned_dictlinked: comp_mt = True
         comp_exe = B['mt' if comp_mt else 'st']
         arch = os.path.join(wd, 'in.lz4')
         if os.path.exists(arch): os.unlink(arch)
